@@ -1729,6 +1729,12 @@ fn drop_stream_ref(inner: &Mutex<Inner>, key: store::Key) {
             while let Some(promise) = ppp.pop(stream.store_mut()) {
                 counts.transition(promise, |counts, stream| {
                     maybe_cancel(stream, actions, counts);
+
+                    // Nobody can read what the promised stream received
+                    // either.
+                    actions
+                        .recv
+                        .release_closed_capacity(stream, &mut actions.task, counts);
                 });
             }
         }
